@@ -1,6 +1,6 @@
 (* Facts about the key exactly as the current source composes it
    (Gen_KeyFields.v is regenerated from lib/cppcheck.cpp and lib/preprocessor.cpp). *)
-From CV Require Import Base.Bytes Cache.Defs Cache.Proofs Cache.Gen_KeyFields.
+From CV Require Import Base.Bytes Cache.Defs Cache.Proofs Cache.DecProofs Cache.Gen_KeyFields.
 Require Import Lia.
 Local Open Scope N_scope.
 
@@ -15,7 +15,8 @@ Definition loc_status (e : locenc) : Prop :=
   | LocChar => forall hp ti p ts,
       hashdata LocChar hp ti (mkU p (map (shift_tok 256) ts) []) = hashdata LocChar hp ti (mkU p ts []) /\
       hashdata LocChar hp ti (mkU p (map (shift_cols 256) ts) []) = hashdata LocChar hp ti (mkU p ts [])
-  | LocDec => forall l c l' c', enc_loc LocDec l c = enc_loc LocDec l' c' -> length (dec_of_N l ++ dec_of_N c) = length (dec_of_N l' ++ dec_of_N c')
+  | LocDec => forall hp ti p ts ts', map text ts = map text ts' ->
+      hashdata LocDec hp ti (mkU p ts []) = hashdata LocDec hp ti (mkU p ts' []) -> ts = ts'
   end.
 
 Lemma loc_status_all e : loc_status e.
@@ -23,8 +24,7 @@ Proof.
   destruct e; cbn [loc_status].
   - intros hp ti p ts. split; [apply hashdata_char_shift256|].
     unfold hashdata. cbn [u_toks u_hdrs]. now rewrite enc_toks_char_shiftcol256.
-  - intros l c l' c' E. unfold enc_loc in E. apply (f_equal (@length N)) in E.
-    cbn [length] in E. rewrite !app_length in *. cbn [length] in E. rewrite !app_length in E. cbn [length] in E. lia.
+  - intros hp ti p ts ts'. apply hashdata_dec_locations.
 Qed.
 
 (* the source path: invisible while toolinfo does not carry it *)
